@@ -1,5 +1,6 @@
 SPECIFICATION SimSpec
 CONSTANTS
+    Focus = "general"
     Cfgs <- AllCfgs
     Ctors <- SimCtors
     Layouts <- SimLayouts
